@@ -10,7 +10,7 @@ MANIFEST = {
                      "the atomic reference-count steps, any number of threads/handles/schedules; single-threaded API "
                      "histories as the special case) + differential correspondence of the model with the real String / "
                      "Variant / Xml::Variant / RefCount::Ptr code under a ledger allocator and a controlled scheduler",
-        "text": "Theorems (Props.lean: mt_safe, mt_step_safe, mt_write_sole, mt_view_stable, mt_sched_safe for all thread counts, programs "
+        "text": "Theorems (Props.lean: mt_safe, mt_ref_inflight, mt_step_safe, mt_write_sole, mt_view_stable, mt_sched_safe for all thread counts, programs "
                 "and schedules; ref_counts_handles, freed_once_after_last, no_inplace_write_while_shared, st_write_sole, st_quiet for all "
                 "single-threaded API histories) over every reachable state of the Lean model (heap of counted blocks, handle slots owned by threads, "
                 "atomic steps inc / dec-and-test / plain counter read / alloc / in-place write / free): counter = number of "
